@@ -80,6 +80,9 @@ type client struct {
 	ref      *dhcpv4.DHCPv4 // last userspace OFFER/ACK carrying an address for this client
 	ended    string         // "released", "declined", "expired" or ""
 	hadCID   bool
+	l2       bool             // option 82 is inserted by a layer-2 access node: giaddr stays 0
+	oldCIDs  [][]byte         // circuit-ids this line had before it was moved to another port
+	movedAck int              // how many of oldCIDs userspace has seen replaced (an ACK of a request carrying the new one)
 	swapped  int              // how often the hardware address behind this circuit-id was replaced
 	leaseMAC net.HardwareAddr // hardware address the userspace lease was last acknowledged to
 	o82      int              // shape of option 82 in the next userspace message: 0 full, 1 remote-id only, 2 absent
@@ -95,6 +98,8 @@ func (c *client) request(mt dhcpv4.MessageType, xid uint32, req net.IP, ciaddr n
 	}
 	if c.relay != nil {
 		mods = append(mods, dhcpv4.WithGatewayIP(c.relay))
+	}
+	if c.relay != nil || c.l2 {
 		// the relay does not always repeat the same option 82: full, remote-id only, or absent
 		switch {
 		case c.cid != nil && c.o82 == 0:
@@ -152,6 +157,12 @@ func buildProbe(c *client, ps probeShape, xid uint32) []byte {
 	sport, dport := uint16(68), uint16(67)
 	ethDst := net.HardwareAddr{0xff, 0xff, 0xff, 0xff, 0xff, 0xff}
 	ethSrc := c.mac
+	if ps.relayed && c.relay == nil && c.l2 && c.cid != nil {
+		sub := append([]byte{1, byte(len(c.cid))}, c.cid...)
+		sub = append(sub, 2, 7, 'r', 'e', 'l', 'a', 'y', '-', '1')
+		o = append(o, 82, byte(len(sub)))
+		o = append(o, sub...)
+	}
 	if ps.relayed && c.relay != nil {
 		copy(b[24:28], c.relay.To4())
 		if c.cid != nil {
@@ -334,6 +345,22 @@ func TestFastPathAgreesWithUserspace(t *testing.T) {
 			scripts = append(scripts, sc)
 		}
 	}
+	// the line is moved to another port (op 21: later requests carry another circuit-id), for a relayed client and for
+	// one whose option 82 is inserted by a layer-2 access node (op 22: no giaddr); then the lease ends
+	for _, l2 := range []bool{false, true} {
+		for _, end := range []int{7, 11} {
+			var sc []forced
+			if l2 {
+				sc = append(sc, forced{22, 0})
+			}
+			sc = append(sc, forced{0, 0}, forced{3, 0}, forced{21, 0}, forced{3, 0}, forced{3, 0})
+			if end == 11 {
+				sc = append(sc, forced{9, 0})
+			}
+			sc = append(sc, forced{end, 0}, forced{0, 0})
+			scripts = append(scripts, sc)
+		}
+	}
 	// the CPE behind the line is replaced (op 20), the new station takes the lease over through the circuit-id
 	// index, and then the lease ends by each path
 	for _, end := range []int{7, 8, 11} {
@@ -400,7 +427,17 @@ func TestFastPathAgreesWithUserspace(t *testing.T) {
 					c.mac = append(c.mac, byte(rng.IntN(256)))
 				}
 				run.Count(fmt.Sprintf("clients_hlen_%d", len(c.mac)), 1)
-				if rng.IntN(2) == 0 || script != nil {
+				if script == nil && rng.IntN(6) == 0 {
+					// option 82 inserted by a layer-2 access node (no relay: giaddr 0)
+					c.l2 = true
+					n := []int{1, 5, 12, 31, 32}[rng.IntN(5)]
+					c.cid = make([]byte, n)
+					for j := range c.cid {
+						c.cid[j] = byte('a' + rng.IntN(26))
+					}
+					c.cid[0] = byte('K' + i)
+					run.Count("clients_option82_without_relay", 1)
+				} else if rng.IntN(2) == 0 || script != nil {
 					c.relay = net.IPv4(10, 250, 0, byte(1+i))
 					if rng.IntN(4) != 0 || script != nil {
 						n := []int{1, 5, 12, 31, 32, 33, 48}[rng.IntN(7)] // 33, 48: longer than the 32-byte key (cached by MAC only)
@@ -441,6 +478,26 @@ func TestFastPathAgreesWithUserspace(t *testing.T) {
 						continue
 					}
 				}
+				if script != nil && script[s].op == 22 {
+					c.l2, c.relay = true, nil
+					continue
+				}
+				if (script == nil && c.cid != nil && c.bound != nil && rng.IntN(10) == 0) || (script != nil && script[s].op == 21 && c.cid != nil) {
+					// the line is moved to another port: from now on its requests carry another circuit-id
+					c.oldCIDs = append(c.oldCIDs, c.cid)
+					nc := append([]byte(nil), c.cid...)
+					if len(nc) < 30 {
+						nc = append(nc, byte('0'+len(c.oldCIDs)%10))
+					} else {
+						nc[len(nc)-1] = byte('0' + len(c.oldCIDs)%10) // same length, another port number
+					}
+					c.cid = nc
+					run.Count("port_moves", 1)
+					trace = append(trace, fmt.Sprintf("%s moved to another port: circuit-id is now %q", c.mac, c.cid))
+					if script != nil {
+						continue
+					}
+				}
 				c.o82 = 0
 				if c.bound != nil && rng.IntN(3) == 0 && (c.leaseMAC == nil || c.leaseMAC.String() == c.mac.String()) {
 					c.o82 = 1 + rng.IntN(2) // only renewals vary: the first exchange (also of a replaced CPE) always carries the circuit-id
@@ -473,6 +530,9 @@ func TestFastPathAgreesWithUserspace(t *testing.T) {
 					if r != nil && r.MessageType() == dhcpv4.MessageTypeAck {
 						c.bound, c.ref, c.ended = r.YourIPAddr, r, ""
 						c.leaseMAC = append(net.HardwareAddr(nil), c.mac...)
+						if c.o82 == 0 {
+							c.movedAck = len(c.oldCIDs)
+						}
 						c.hadCID = c.hadCID || c.cid != nil
 						trace = append(trace, fmt.Sprintf("%s REQUEST %v -> ACK", c.mac, want))
 					} else {
@@ -547,8 +607,9 @@ func TestFastPathAgreesWithUserspace(t *testing.T) {
 					// a station that is NOT the bound client, behind the same relay, whose circuit-id is a
 					// near miss of the bound client's (longer with the same first bytes, shorter, last byte
 					// different), with Option 82 at each offset the program inspects: never answered from the cache
-					if c.relay != nil && c.cid != nil && c.bound != nil && s%2 == 0 {
+					if (c.relay != nil || c.l2) && c.cid != nil && c.bound != nil && s%2 == 0 {
 						variants := [][]byte{}
+						nearMiss := 0
 						for _, extra := range []int{1, 2, 12} {
 							v := append([]byte(nil), c.cid...)
 							for k := 0; k < extra; k++ {
@@ -562,8 +623,25 @@ func TestFastPathAgreesWithUserspace(t *testing.T) {
 							v[len(v)-1] ^= 0x20
 							variants = append(variants, v)
 						}
+						// a near miss that happens to be a circuit-id this very line had before is not a stranger's
+						kept := variants[:0]
+						for _, v := range variants {
+							isOld := false
+							for _, oc := range c.oldCIDs {
+								isOld = isOld || bytes.Equal(oc, v)
+							}
+							if !isOld {
+								kept = append(kept, v)
+							}
+						}
+						variants = kept
+						nearMiss = len(variants)
+						// the circuit-ids this line had before it was moved (userspace has acknowledged the new one)
+						for _, oc := range c.oldCIDs[:c.movedAck] {
+							variants = append(variants, oc)
+						}
 						for vi, v := range variants {
-							fc := &client{mac: net.HardwareAddr{0x06, 0xfe, byte(h), byte(s), byte(ci), byte(vi)}, relay: c.relay, cid: v}
+							fc := &client{mac: net.HardwareAddr{0x06, 0xfe, byte(h), byte(s), byte(ci), byte(vi)}, relay: c.relay, l2: c.l2, cid: v}
 							pos := 3
 							var mid []byte
 							if (vi+s/2)%2 == 1 {
@@ -588,7 +666,13 @@ func TestFastPathAgreesWithUserspace(t *testing.T) {
 							if len(v) > 32 {
 								run.Count("foreign_probe_circuit_id_longer_than_key", 1)
 							}
-							if res.Verdict == 3 {
+							if res.Verdict == 3 && vi >= nearMiss {
+								run.Count("old_circuit_id_probes", 1)
+								run.Violation("dhcp.Server+bpf/dhcp_fastpath.c", "no-answer-without-binding", "moved/cached-by-previous-circuit-id", fmt.Sprintf("the fast path answered a station (%s) presenting circuit-id %q, which client %s had before it moved to %q (userspace has acknowledged the new one)", fc.mac, v, c.mac, c.cid),
+									map[string]any{"history": trace, "frame": fmt.Sprintf("%x", frame), "out": fmt.Sprintf("%x", res.Out)})
+							} else if vi >= nearMiss {
+								run.Count("old_circuit_id_probes", 1)
+							} else if res.Verdict == 3 {
 								run.Violation("dhcp.Server+bpf/dhcp_fastpath.c", "no-answer-without-binding", "never-bound/near-miss-circuit-id", fmt.Sprintf("the fast path answered a station (%s, circuit-id %q, option 82 at offset %d) that has no binding: its circuit-id is a near miss of bound client %s's %q", fc.mac, v, pos, c.mac, c.cid),
 									map[string]any{"history": trace, "frame": fmt.Sprintf("%x", frame), "out": fmt.Sprintf("%x", res.Out)})
 							}
@@ -615,7 +699,7 @@ func TestFastPathAgreesWithUserspace(t *testing.T) {
 						{name: "request-relayed", msg: 3, pad: 100, relayed: true},
 					}
 					shapes = append(shapes, extra[rng.IntN(len(extra))], extra[rng.IntN(len(extra))], extra[(s+ci)%len(extra)])
-					if c.relay != nil {
+					if c.relay != nil || c.l2 {
 						// every key the client may be cached under is probed after every step
 						shapes = append(shapes, extra[len(extra)-2])
 					}
